@@ -36,7 +36,9 @@ var c02mix = []weighted{
 // deposed); the epoch after a failover may stay empty; with two replicas (and a third server as metadata
 // voter only) the leadership ping-pongs between the same two logs.
 func c02Chain(r *simrt.Rand, p *hx.Program) {
-	a := func() []int64 { return []int64{int64(r.Intn(12)), int64(r.Intn(12)), int64(r.Intn(90)), int64(r.Intn(12))} }
+	a := func() []int64 {
+		return []int64{int64(r.Intn(12)), int64(r.Intn(12)), int64(r.Intn(90)), int64(r.Intn(12))}
+	}
 	add := func(k string) { p.Ops = append(p.Ops, hx.Op{K: k, A: a()}) }
 	sleep := func(i int) { p.Ops = append(p.Ops, hx.Op{K: "sleep", A: []int64{int64(i)}}) }
 	pubs := func(n int) {
@@ -111,7 +113,9 @@ func c02Chain(r *simrt.Rand, p *hx.Program) {
 // deposed leader, with empty epochs, with publishes appended one by one or in batches. Every log sees
 // every epoch boundary either by election or by replication, and reconciles against the other again and again.
 func c02PingPong(r *simrt.Rand, p *hx.Program) {
-	a := func() []int64 { return []int64{int64(r.Intn(12)), int64(r.Intn(12)), int64(r.Intn(90)), int64(r.Intn(12))} }
+	a := func() []int64 {
+		return []int64{int64(r.Intn(12)), int64(r.Intn(12)), int64(r.Intn(90)), int64(r.Intn(12))}
+	}
 	add := func(k string) { p.Ops = append(p.Ops, hx.Op{K: k, A: a()}) }
 	sleep := func(i int) { p.Ops = append(p.Ops, hx.Op{K: "sleep", A: []int64{int64(i)}}) }
 	pubs := func(n int) {
@@ -245,13 +249,14 @@ func c02Committed(c *cluster) []committedMsg {
 func c02Boundary(c *cluster, final bool) {
 	h := c.h
 	type view struct {
-		n       *simNode
-		log     map[int64]string
-		hw      int64
-		newest  int64
-		leading bool
-		epoch   uint64
-		inISR   bool
+		n        *simNode
+		log      map[int64]string
+		hw       int64
+		newest   int64
+		leading  bool
+		epoch    uint64
+		inISR    bool
+		outdated bool
 	}
 	// what is committed is fixed before the logs are read: reading takes simulated steps, during
 	// which more can be stored and acknowledged
@@ -268,8 +273,25 @@ func c02Boundary(c *cluster, final bool) {
 		}
 		v := view{n: n, log: log, hw: hw, newest: newest, leading: p.isLeading && p.Leader == n.id, epoch: p.LeaderEpoch}
 		// (in-sync according to the committed metadata, not to what this server has applied so far)
-		_, committedISR := c.raftView(c.h.cluster.CommitIndex())
+		committedLeader, committedISR := c.raftView(c.h.cluster.CommitIndex())
 		v.inISR = committedISR[n.id]
+		if v.leading {
+			// a server that leads by its own account while the committed metadata say otherwise (another
+			// leader, or in-sync members it does not know about) acts on outdated metadata: what it commits
+			// on its own is the recorded finding "leader cut off from the controller"
+			if committedLeader != n.id {
+				v.outdated = true
+			}
+			known := map[string]bool{}
+			for _, r := range p.Isr {
+				known[r] = true
+			}
+			for r := range committedISR {
+				if !known[r] {
+					v.outdated = true
+				}
+			}
+		}
 		views = append(views, v)
 		if h.verbose {
 			var offs []int64
@@ -301,6 +323,10 @@ func c02Boundary(c *cluster, final bool) {
 	for i := 0; i < len(views); i++ {
 		for j := i + 1; j < len(views); j++ {
 			a, b := views[i], views[j]
+			tag := tag
+			if tag == "" && (a.outdated || b.outdated) {
+				tag = "/leader-cut-off-from-the-controller-committed"
+			}
 			lim := a.hw
 			if b.hw < lim {
 				lim = b.hw
